@@ -1071,14 +1071,13 @@ func (ev *Evaluator) index(bv, iv Value) (Value, *ctrl) {
 		ev.feat("elem-read")
 		return b.Elems[i], nil
 	case StrV:
-		if !isASCII(string(b)) {
-			return nil, ev.abort("non-ascii string index")
-		}
-		i, c := normIndex(int64(iv.(IntV)), len(b))
+		// a string is a sequence of characters (what len() counts and for yields)
+		rs := []rune(string(b))
+		i, c := normIndex(int64(iv.(IntV)), len(rs))
 		if c != nil {
 			return nil, c
 		}
-		return StrV(string(b[i])), nil
+		return StrV(string(rs[i])), nil
 	}
 	return nil, ev.abort("index on " + bv.Kind().String())
 }
